@@ -425,6 +425,8 @@ type c11Run[K comparable, V any] struct {
 	env vh.EnvT
 	cfg c11Cfg
 	ty  c11Types[K, V]
+	// faultNote is appended to violation details while the writer-fault part of checkState is running
+	faultNote string
 }
 
 type c11Replay struct {
@@ -437,8 +439,11 @@ type c11Replay struct {
 
 func (r *c11Run[K, V]) violate(clause, sig, what string, ops []c11Op, sn *c11Snap[K, V], target int, elapsed int64, extra int) {
 	detail := fmt.Sprintf("%s\n  MaxSize=%d values=%s age=%ds ops: %s\n  saved: %s\n  save -> %v elapsed -> load into MaxSize=%d",
-		what, r.cfg.MaxSize, r.cfg.VT, r.cfg.AgeS, c11Ops(ops), r.show(sn, 0), time.Duration(elapsed), target)
+		what+r.faultNote, r.cfg.MaxSize, r.cfg.VT, r.cfg.AgeS, c11Ops(ops), r.show(sn, 0), time.Duration(elapsed), target)
 	cost := len(ops)*100 + extra
+	if r.faultNote != "" {
+		sig = "after-failed-save:" + sig
+	}
 	r.res.Violate(clause, sig, detail, cost, c11Replay{Cfg: r.cfg, Ops: ops, Target: target, Elapsed: elapsed, ElapsedS: float64(elapsed) / 1e9})
 }
 
@@ -493,7 +498,54 @@ func (r *c11Run[K, V]) checkState(ops []c11Op, s *Store[K, V], sn *c11Snap[K, V]
 			}
 			r.checkOne(ops, sn, t, el, stream, savedStart)
 		}
+		// writer faults (E3-FAULT on the save side): a SaveCache that fails at its i-th write - for EVERY i - from another,
+		// older cache, followed by a save of this one: the second stream must be as faithful as if nothing had happened
+		if r.env.Int("wfaults", 0) == 1 && el == 0 {
+			cw := &c11FailWriter{failAt: -1}
+			_ = s.Persist(0, cw)
+			for i := 0; i < cw.n; i++ {
+				other := c11New[K, V](r.cfg.MaxSize)
+				c11Shift(other, int64(40*24*time.Hour)) // a different clock origin than s
+				other.Set(r.ty.kf(0), r.ty.vf(c11Op{Kind: "set", Key: 0, Cost: 1, TTL: 0}), 1, 0)
+				other.Set(r.ty.kf(1), r.ty.vf(c11Op{Kind: "set", Key: 1, Cost: 1, TTL: 0}), 1, 0)
+				other.Wait()
+				for _, victim := range []*Store[K, V]{other, s} {
+					fw := &c11FailWriter{failAt: i}
+					if err := victim.Persist(0, fw); err == nil && fw.failed {
+						r.res.Executions++
+						r.violate("write-error-swallowed", fmt.Sprintf("write#%d", i), fmt.Sprintf("the writer failed at its write #%d and Persist returned nil", i), ops, sn, r.cfg.MaxSize, el, 0)
+					}
+				}
+				other.Close()
+				stream2, savedStart2, err := r.persist(s, el)
+				if err != nil {
+					r.res.Executions++
+					r.violate("persist-error", "after-failed-save:err="+c11ErrClass(err), "Persist after a failed Persist returned "+err.Error(), ops, sn, r.cfg.MaxSize, el, 0)
+					continue
+				}
+				r.faultNote = fmt.Sprintf(" [after two SaveCache calls (another cache's, this cache's) whose writer failed at write #%d]", i)
+				r.checkOne(ops, sn, r.cfg.MaxSize, el, stream2, savedStart2)
+				r.faultNote = ""
+			}
+			r.res.Bounds["writer_fault_positions"] = cw.n
+		}
 	}
+}
+
+// c11FailWriter counts Write calls and fails the failAt-th one (after accepting half of its bytes).
+type c11FailWriter struct {
+	n, failAt int
+	failed    bool
+}
+
+func (w *c11FailWriter) Write(p []byte) (int, error) {
+	i := w.n
+	w.n++
+	if i == w.failAt {
+		w.failed = true
+		return len(p) / 2, fmt.Errorf("c11: injected write failure")
+	}
+	return len(p), nil
 }
 
 // persist saves s as if `elapsed` more time had passed before the load: the clock origin written to the
